@@ -202,6 +202,10 @@ func (e *Exec) ufCall(st *State, callee *ssa.Function, args []Val, rtyp types.Ty
 	if rs == "Tuple" {
 		e.fail("uninterpreted call %s returning a tuple", callee)
 	}
+	if callee.Origin() != nil || callee.TypeParams().Len() > 0 {
+		// instances of a generic function are different functions
+		name += "." + sanitize(strings.Join(sorts, "."))
+	}
 	c.DeclareFun(name, fmt.Sprintf("(declare-fun %s (%s) %s)", name, strings.Join(sorts, " "), rs))
 	t := c.App(name, rs, ts...)
 	return Val{T: e.typed(t, rtyp)}
